@@ -761,10 +761,27 @@ fn gen_expr(r: &mut Rng, base: &J) -> (Vec<u8>, &'static str) {
             ]);
             (e.as_bytes().to_vec(), "unicode_literal")
         }
-        16 => {
+        16 if r.chance(1, 2) => {
             let d = 1 + r.below(2) as u32;
             let e = ExprGen::new(r, &none).for_doc(base, d);
             (format!("\n  {}\n\t", e.replace(" | ", "\n|\n")).into_bytes(), "multiline")
+        }
+        16 => {
+            // conventions of OTHER text files that mean nothing in JMESPath: comment markers,
+            // shebangs, continuation backslashes, BOMs -- as lines of their own (the library
+            // rejects them) and as lines of a multi-line raw string or literal (they are data)
+            let d = 1;
+            let e = ExprGen::new(r, &none).for_doc(base, d);
+            let mark = *r.pick(&["#", "# note", "  # note", "//", "// x", ";", "-- x", "#!/usr/bin/jp", "%", "\u{feff}", "/* x */", "REM"]);
+            let t = match r.below(6) {
+                0 => format!("{}\n{}\n", mark, e),
+                1 => format!("{}\n{}\n", e, mark),
+                2 => format!("'line one\n{}\nline three'", mark),
+                3 => format!("`\"a\n{}\"`", mark.replace('"', "")),
+                4 => format!("{} \\\n | @", e),
+                _ => format!("[{},\n{}\n'{}']", e, mark, mark),
+            };
+            (t.into_bytes(), "foreign_file_conventions")
         }
         17 => {
             if r.chance(1, 2) {
